@@ -163,7 +163,7 @@ def _one_path(world, ex, con, fsrc, case, rets, raises, out):
     for text, tree in con.old_exprs():
         try:
             frame.old[text] = ex.spec_eval(text, frame, {})
-        except (Unsupported, PyExc):
+        except (Unsupported, PyExc, ContractError):
             pass        # an old() of another type case that makes no sense here; using it is a ContractError
     pre_params = dict(env)
     ex.pre_params = pre_params
